@@ -345,24 +345,77 @@ impl<T: ?Sized> Clone for Reference<T> {
 #[macro_export]
 macro_rules! to_dyn {
     ($trait_:path, $was:expr) => {{
-        #[cfg(feature = "alloc")]
-        extern crate alloc;
-        #[allow(unreachable_patterns)]
         match $was.into_inner() {
-            reference::ReferenceUnsafe::Ptr(ptr) => unsafe {
-                Reference::from_ptr(ptr as *mut dyn $trait_)
+            $crate::reference::ReferenceUnsafe::Ptr(ptr) => unsafe {
+                $crate::reference::Reference::from_ptr(ptr as *mut dyn $trait_)
             },
-            #[cfg(feature = "alloc")]
-            reference::ReferenceUnsafe::RcRefCell(rc_ref_cell) => Reference::from_rc_ref_cell(
-                rc_ref_cell as alloc::rc::Rc<core::cell::RefCell<dyn $trait_>>,
-            ),
-            #[cfg(feature = "std")]
-            reference::ReferenceUnsafe::PtrRwLock(ptr_rw_lock) => unsafe {
-                Reference::from_ptr_rw_lock(ptr_rw_lock as *const std::sync::RwLock<dyn $trait_>)
+            other => $crate::__to_dyn_alloc!($trait_, other),
+        }
+    }};
+}
+//The arms of `to_dyn!` for variants that only exist with some features are in helper macros selected
+//by RRTK's own features here. A `#[cfg(feature = ...)]` written inside `to_dyn!` itself would be
+//evaluated in the crate calling the macro, which need not have features of the same names.
+#[doc(hidden)]
+pub mod __private {
+    #[cfg(feature = "alloc")]
+    pub use alloc::rc::Rc;
+    pub use core::cell::RefCell;
+    #[cfg(feature = "std")]
+    pub use std::sync::RwLock;
+}
+#[cfg(feature = "alloc")]
+#[doc(hidden)]
+#[macro_export]
+macro_rules! __to_dyn_alloc {
+    ($trait_:path, $was:expr) => {
+        match $was {
+            $crate::reference::ReferenceUnsafe::RcRefCell(rc_ref_cell) => {
+                $crate::reference::Reference::from_rc_ref_cell(
+                    rc_ref_cell
+                        as $crate::reference::__private::Rc<
+                            $crate::reference::__private::RefCell<dyn $trait_>,
+                        >,
+                )
+            }
+            other => $crate::__to_dyn_std!($trait_, other),
+        }
+    };
+}
+#[cfg(not(feature = "alloc"))]
+#[doc(hidden)]
+#[macro_export]
+macro_rules! __to_dyn_alloc {
+    ($trait_:path, $was:expr) => {
+        match $was {
+            _ => unimplemented!(),
+        }
+    };
+}
+#[cfg(feature = "std")]
+#[doc(hidden)]
+#[macro_export]
+macro_rules! __to_dyn_std {
+    ($trait_:path, $was:expr) => {
+        match $was {
+            $crate::reference::ReferenceUnsafe::PtrRwLock(ptr_rw_lock) => unsafe {
+                $crate::reference::Reference::from_ptr_rw_lock(
+                    ptr_rw_lock as *const $crate::reference::__private::RwLock<dyn $trait_>,
+                )
             },
             _ => unimplemented!(),
         }
-    }};
+    };
+}
+#[cfg(all(feature = "alloc", not(feature = "std")))]
+#[doc(hidden)]
+#[macro_export]
+macro_rules! __to_dyn_std {
+    ($trait_:path, $was:expr) => {
+        match $was {
+            _ => unimplemented!(),
+        }
+    };
 }
 pub use to_dyn;
 ///Create a new `Rc<RefCell>` of something and return a [`Reference`] to it. Because of how [`Rc`]
